@@ -23,6 +23,16 @@ loadstate_t iobuffer::load_buffer(FILE *fin, bool ispadding)
 {
   u32_t load = fread(b, 1, sum, fin);
   bool readover = feof(fin);
+  if ((!ispadding) && (load == sum) && (!readover))
+  {
+    // a full read that ends exactly at end of file does not set the EOF flag: look one byte ahead,
+    // otherwise the real last chunk is exported with its padding and an empty FINAL chunk follows
+    int next = fgetc(fin);
+    if (next == EOF)
+      readover = true;
+    else
+      ungetc(next, fin);
+  }
   tail = load & 0xf;
   total = load >> 4;
   now = 0;
